@@ -18,6 +18,10 @@ from ..paths import REPO
 TD = REPO + "/tests/data"
 
 
+from ..xcheck import XCheck
+
+XC = XCheck()
+
 def corpus(thorough):
     out = []
     for fmt in ("kida", "umist", "leeds", "uclchem", "naunet"):
@@ -74,6 +78,7 @@ def _eq_terms(res, tag, what, xa, xb, s, replay, keyof=None):
         if a is None or b is None:
             continue
         r_ = str(s.check(R(a) != R(b)))
+        XC.sample(s, [R(a) != R(b)], r_, f"{tag}:{what}[{i}]")
         if r_ == "unsat":
             res["ok"].append(f"{tag}:{what}[{i}]")
         elif r_ == "sat":
@@ -206,8 +211,17 @@ def _analyse(name, base, lines, fmt, tier, res):
         res["samples"].append({"case": name, "reactions": len(direct.meta["reactions"]), "compared": "write/read fields (ground) + k/ydot terms direct vs exported+re-rendered (SMT)"})
 
 
-def _work(a):
+def _work_inner(a):
     return analyse(*a)
+
+
+def _work(a):
+    tier = a[-1] if isinstance(a[-1], str) and a[-1] in ("quick", "thorough") else next((x for x in a if x in ("quick", "thorough")), "quick")
+    XC.__init__(every=15 if tier == "thorough" else 40, first=1, cap=10 if tier == "thorough" else 3)
+    r = _work_inner(a)
+    if isinstance(r, dict):
+        r["xcheck"] = XC.summary()
+    return r
 
 
 def main(pid, tier):
@@ -222,6 +236,7 @@ def main(pid, tier):
         chk.programs += r["programs"]
         chk.solver_s += r["solver_s"]
         chk.functions.update(r["functions"])
+        chk.xc.merge(r.get("xcheck"))
         for n in r["ok"]:
             chk.ok(n)
             chk.nontrivial.add(n)
